@@ -37,12 +37,12 @@ def maxsize : Nat := 9223372036854775807
 /-- A streaming decompressor as `DeflateBuffer` uses it (zlib / brotli / zstd behind
 `compression_utils`).  `step st data maxLen` = `decompress_sync(data, max_length=maxLen)`
 (`maxLen = 0` = unlimited; `none` = it raised); `avail` = `data_available` after the call;
-`atEof` = `decompressor.eof`; `initRaw` = the decoder `DeflateBuffer` switches to when the first
-byte of a `deflate` body is not a zlib header. -/
+`atEof` = `decompressor.eof`; `toRaw st` = the decoder `DeflateBuffer` switches to when the first
+byte of a `deflate` body is not a zlib header (a fresh raw-deflate decoder for real codecs). -/
 structure Codec where
   St : Type
   init : St
-  initRaw : St
+  toRaw : St → St
   step : St → Bytes → Nat → Option (St × Bytes)
   avail : St → Bool
   atEof : St → Bool
@@ -119,17 +119,27 @@ structure World (c : Codec) where
   res : Res := .needs
   outb : Bytes := []             -- bytes collected by the read in progress
   upErr : Option Err := none     -- an exception left HttpParser.feed_data (protocol-level error)
-  delivered : Bytes := []        -- ghost: everything handed to the consumer
-  decoded : Bytes := []          -- ghost: everything passed to StreamReader.feed_data
-  rawIn : Bytes := []            -- ghost: everything passed to payload.feed_data
-  wireIn : Bytes := []           -- ghost: everything the transport delivered
+  -- ghosts are kept as reversed lists of pieces (O(1) per event); read them with `flat`
+  deliveredR : List Bytes := []  -- ghost: everything handed to the consumer
+  decodedR : List Bytes := []    -- ghost: everything passed to StreamReader.feed_data
+  rawInR : List Bytes := []      -- ghost: everything passed to payload.feed_data
+  wireInR : List Bytes := []     -- ghost: everything the transport delivered
   peak : Nat := 0                -- ghost: largest buffered size seen
   -- BaseRequest.read()
   reqStarted : Bool := false
-  reqParked : Bool := false
+  reqParked : Bool := false      -- the read() coroutine is parked in StreamReader._wait
+  waiter : Bool := false         -- StreamReader._waiter is not None
+  wakeExc : Option Err := none   -- the parked waiter was failed by set_exception
   reqBody : Bytes := []
 
 variable {c : Codec}
+
+/-- concatenation of a reversed piece list -/
+def flat (l : List Bytes) : Bytes := l.reverse.flatten
+def World.delivered (w : World c) : Bytes := flat w.deliveredR
+def World.decoded (w : World c) : Bytes := flat w.decodedR
+def World.rawIn (w : World c) : Bytes := flat w.rawInR
+def World.wireIn (w : World c) : Bytes := flat w.wireInR
 
 /-- `StreamReader._size` -/
 def bsize (buf : List Bytes) : Nat := (buf.map List.length).sum
@@ -150,11 +160,18 @@ def pauseReading (w : World c) : World c :=
   if !w.parserLive || !w.ppLive then { w with raised := some .assertion }
   else { w with paused := true, trPaused := w.trPaused || w.connected }
 
+/-- `set_result(self._waiter, None); self._waiter = None` -/
+def wake (w : World c) : World c := { w with waiter := false }
+
+/-- `StreamReader.set_exception(e)`: a registered waiter is failed with `e` -/
+def setExc (w : World c) (e : Err) : World c :=
+  if w.waiter then { w with exc := some e, waiter := false, wakeExc := some e } else { w with exc := some e }
+
 /-- `StreamReader.feed_data` -/
 def rdFeed (w : World c) (data : Bytes) : World c :=
   if w.eof then { w with raised := some .assertion } else
   if data.isEmpty then w else
-  let w := { w with buf := w.buf ++ [data], total := w.total + data.length, decoded := w.decoded ++ data }
+  let w := wake { w with buf := w.buf ++ [data], total := w.total + data.length, decodedR := data :: w.decodedR }
   let w := { w with peak := max w.peak (bsize w.buf) }
   if bsize w.buf > w.high then pauseReading w else w
 
@@ -164,7 +181,7 @@ def resumeTransport (w : World c) : World c :=
 
 /-- `StreamReader.feed_eof` (→ `protocol.resume_reading(resume_parser=False)`) -/
 def rdFeedEof (w : World c) : World c :=
-  resumeTransport { w with eof := true, readingPaused := false }
+  resumeTransport (wake { w with eof := true, readingPaused := false })
 
 /-- `StreamReader.set_read_chunk_size` -/
 def setChunk (w : World c) (n : Nat) : World c :=
@@ -185,18 +202,18 @@ def endChunk (w : World c) : World c :=
     if w.total == pos then w else
     let sp := sp ++ [w.total]
     let w := { w with splits := some sp }
-    if sp.length > w.highChunks then pauseReading w else w
+    wake (if sp.length > w.highChunks then pauseReading w else w)
 
 /-- `payload.feed_data(chunk)` where payload is the `DeflateBuffer` (compressed) or the
 `StreamReader` itself; the return value lands in `more` -/
 def payFeed (w : World c) (chunk : Bytes) : World c :=
-  let w := { w with rawIn := w.rawIn ++ chunk }
+  let w := { w with rawInR := chunk :: w.rawInR }
   if !w.compressed then { rdFeed w chunk with more := false } else
   let w := { w with dsize := w.dsize + chunk.length }
   let w :=
     if !w.started && !chunk.isEmpty then
       { w with started := true,
-               dst := if w.sniff && (chunk.headD 0).toNat % 16 != 8 then c.initRaw else w.dst }
+               dst := if w.sniff && (chunk.headD 0).toNat % 16 != 8 then c.toRaw w.dst else w.dst }
     else w
   match c.step w.dst chunk (maxLen w) with
   | none => { w with raised := some .contentEncoding }
@@ -369,8 +386,12 @@ def parserFeed (w : World c) (data : Bytes) : World c :=
   | .complete => { w with hasMore := false, ppLive := false, tail := [] }
   | .failed =>
     let e := w.raised.getD .assertion
-    { w with exc := some e, hasMore := false, ppLive := false, raised := none,
-             upErr := if e == .transferEncoding || e == .invalidHeader then some e else w.upErr }
+    -- `set_exception(payload, …)`; InvalidHeader / TransferEncodingError are re-raised BEFORE
+    -- `_payload_has_more_data` and `_payload_parser` are touched
+    if e == .transferEncoding || e == .invalidHeader then
+      { setExc w e with raised := none, upErr := some e }
+    else
+      { setExc w e with hasMore := false, ppLive := false, raised := none }
 
 /-- `protocol.data_received(data)` (payload path) -/
 def dataReceived (w : World c) (data : Bytes) : World c :=
@@ -390,7 +411,7 @@ def readChunk (w : World c) (n : Option Nat) : World c :=
       | some k => if first.length > k then (first.take k, first.drop k :: restb) else (first, restb)
       | none => (first, restb)
     let cursor := w.cursor + data.length
-    let w := { w with buf := buf', cursor := cursor, outb := w.outb ++ data, delivered := w.delivered ++ data,
+    let w := { w with buf := buf', cursor := cursor, outb := w.outb ++ data, deliveredR := data :: w.deliveredR,
                       splits := w.splits.map (fun sp => sp.dropWhile (· < cursor)) }
     if bsize w.buf < w.low && (match w.splits with | none => true | some sp => sp.length < w.lowChunks)
     then resumeReading w else w
@@ -459,7 +480,7 @@ def connectionLost (w : World c) : World c :=
     if w.parserLive && w.ppLive then
       let w := ppFeedEof { w with raised := none, res := .needs }
       match w.raised with
-      | some e => { w with exc := some e, raised := none }
+      | some e => { setExc w e with raised := none }
       | none => if w.done then { w with ppLive := false } else w
     else w
   { w with parserLive := false, readingPaused := false, connected := false }
@@ -469,26 +490,29 @@ when it returns, `Out.err .tooLarge` for 413, `blocked` while the coroutine is p
 def reqLoop (cms : Nat) : Nat → World c → World c × Out
   | 0, w => (w, .err .stall)
   | fuel + 1, w =>
-    match w.exc with
-    | some e => (w, .err e)
-    | none =>
-      if w.buf.isEmpty && !w.eof then
-        if w.reqParked then (w, .blocked)
-        else if w.connected then ({ w with reqParked := true }, .blocked)
-        else (w, .err .connClosed)
-      else
-        let w := { w with reqParked := false, outb := [] }
-        let w := readAllChunks w.buf.length w
-        let chunk := w.outb
-        let w := { w with reqBody := w.reqBody ++ chunk }
-        if cms != 0 && w.reqBody.length > cms then (w, .err .tooLarge)
-        else if chunk.isEmpty then (w, .data w.reqBody)
-        else reqLoop cms fuel w
+    -- `readany()` checks `_exception` on entry only; a coroutine resumed from `_wait` does not
+    if !w.reqParked && w.exc.isSome then (w, .err (w.exc.getD .assertion))
+    else if w.buf.isEmpty && !w.eof then
+      -- `await self._wait()`: RuntimeError when the connection is gone, else park on a new waiter
+      if w.connected then ({ w with reqParked := true, waiter := true, wakeExc := none }, .blocked)
+      else ({ w with reqParked := false }, .err .connClosed)
+    else
+      let w := { w with reqParked := false, outb := [] }
+      let w := readAllChunks w.buf.length w
+      let chunk := w.outb
+      let w := { w with reqBody := w.reqBody ++ chunk }
+      if cms != 0 && w.reqBody.length > cms then (w, .err .tooLarge)
+      else if chunk.isEmpty then (w, .data w.reqBody)
+      else reqLoop cms fuel w
 
 def reqRead (w : World c) (cms : Nat) : World c × Out :=
   let w := if w.reqStarted then w else
     { (if cms != 0 then setChunk w cms else w) with reqStarted := true }
-  reqLoop cms (bsize w.buf + w.buf.length + 4) w
+  if w.reqParked && w.waiter then (w, .blocked)            -- the waiter is not done yet
+  else
+    match (if w.reqParked then w.wakeExc else none) with
+    | some e => ({ w with reqParked := false, wakeExc := none }, .err e)   -- woken by set_exception
+    | none => reqLoop cms 1099511627776 w
 
 inductive Op
   | deliver (seg : Bytes)
@@ -502,7 +526,7 @@ deriving Repr
 def step (w : World c) : Op → World c × Out
   | .deliver seg =>
     if w.trPaused || !w.connected then (w, .skipped)
-    else (dataReceived { w with wireIn := w.wireIn ++ seg } seg, .none)
+    else (dataReceived { w with wireInR := seg :: w.wireInR } seg, .none)
   | .close => if !w.connected then (w, .skipped) else (connectionLost w, .none)
   | .setChunk n => (setChunk w n, .none)
   | .read n =>
@@ -525,7 +549,7 @@ def runOuts (w : World c) : List Op → List (World c × Out)
 def Codec.ident : Codec where
   St := Unit
   init := ()
-  initRaw := ()
+  toRaw := fun _ => ()
   step := fun _ i _ => some ((), i)
   avail := fun _ => false
   atEof := fun _ => true
@@ -538,7 +562,7 @@ def expandAll (i : Bytes) : Bytes := i.flatMap expandByte
 def Codec.expand : Codec where
   St := Bytes
   init := []
-  initRaw := []
+  toRaw := fun _ => []
   step := fun pend i m =>
     if i.any (· == 0) then none else
     let all := pend ++ expandAll i
@@ -565,12 +589,12 @@ structure ScriptSt where
 def Codec.scripted (script : List Call) : Codec where
   St := ScriptSt
   init := { todo := script }
-  initRaw := { todo := script }
+  toRaw := fun s => s
   step := fun s i m =>
     match s.todo with
     | [] => none
     | k :: rest =>
-      if k.input != i || k.maxLen != m then none else
+      if k.input != i || k.maxLen != m then some ({ s with todo := [], desync := true }, []) else
       match k.out with
       | none => none
       | some o => some ({ todo := rest, avail := k.avail, atEof := k.atEof }, o)
